@@ -1,6 +1,7 @@
 CONSTANTS
-  Sigma = {"0", "1", "7", "9", "a", "e", "f", "_", ".", "+", "-", "x", "X", "o", "O", "b", "B", "p", "P", "E", "i"}
-  L = 6
+  Sigma = {"0", "1", "7", "9", "a", "e", "f", "_", ".", "+", "-", "x", "X", "o", "b", "p", "E", "i"}
+  L = 5
+  LH = 6
   StrMode = "full"
 INIT Init
 NEXT Next
